@@ -147,24 +147,33 @@ func (r *render) dataID(d []byte) int {
 	return r.data[k]
 }
 
-// tree renders the DAG below c as it is stored in ds.
-func (r *render) tree(t *testing.T, ctx context.Context, ds ipld.DAGService, c cid.Cid) string {
+var dbg string
+
+// tree renders the DAG below c as it is stored in ds; ok = false when a block is missing.
+func (r *render) tree(t *testing.T, ctx context.Context, ds ipld.DAGService, c cid.Cid) (string, bool) {
 	n, err := ds.Get(ctx, c)
 	if err != nil {
-		t.Fatalf("get %s: %v", c, err)
+		if ipld.IsNotFound(err) {
+			return "", false
+		}
+		t.Fatalf("get %s: %v (%s)", c, err, dbg)
 	}
 	switch n := n.(type) {
 	case *merkledag.RawNode:
-		return vh.App("ARaw", vh.Z(int64(r.cid(c))), vh.Z(int64(r.dataID(n.RawData()))))
+		return vh.App("ARaw", vh.Z(int64(r.cid(c))), vh.Z(int64(r.dataID(n.RawData())))), true
 	case *merkledag.ProtoNode:
 		kids := make([]string, 0, len(n.Links()))
 		for _, l := range n.Links() {
-			kids = append(kids, "("+vh.Bytes([]byte(l.Name))+", "+r.tree(t, ctx, ds, l.Cid)+")")
+			sub, ok := r.tree(t, ctx, ds, l.Cid)
+			if !ok {
+				return "", false
+			}
+			kids = append(kids, "("+vh.Bytes([]byte(l.Name))+", "+sub+")")
 		}
-		return vh.App("APB", vh.Z(int64(r.cid(c))), vh.Z(int64(r.dataID(n.Data()))), vh.List(kids))
+		return vh.App("APB", vh.Z(int64(r.cid(c))), vh.Z(int64(r.dataID(n.Data()))), vh.List(kids)), true
 	}
 	t.Fatalf("unexpected node type %T", n)
-	return ""
+	return "", false
 }
 
 func pathCoq(p string) string {
@@ -254,6 +263,10 @@ func (g *gen) edit(root *gn) string {
 	case x < 12: // replace by a file (file->file or dir->file)
 		n := pick()
 		was := site.kids[n]
+		if len(was.kids) > 0 && r.Intn(3) != 0 { // keep the known kind change (finding C14-1) in the minority
+			was.kids[namePool[r.Intn(len(namePool))]] = g.leaf()
+			return "add-file-nested"
+		}
 		site.kids[n] = g.leaf()
 		if was.isDir() && len(was.kids) > 0 {
 			return "dir-with-links->file"
@@ -265,6 +278,10 @@ func (g *gen) edit(root *gn) string {
 	case x < 15: // replace by a directory
 		n := pick()
 		was := site.kids[n]
+		if !was.isDir() && r.Intn(3) != 0 {
+			site.kids[n] = g.leaf()
+			return "file->file"
+		}
 		site.kids[n] = g.tree(2, &small)
 		if !was.isDir() && len(site.kids[n].kids) > 0 {
 			return "file->dir-with-links"
@@ -281,7 +298,7 @@ func (g *gen) edit(root *gn) string {
 			return "dir->emptydir"
 		}
 		return "file->emptydir"
-	case x < 18: // chunked file <-> directory with the same link names
+	case x < 18 && r.Intn(3) == 0: // chunked file <-> directory with the same link names
 		n := pick()
 		site.kids[n] = &gn{data: ft.FolderPBData(), kids: chunked(g.content()).kids}
 		return "to-dir-with-chunk-names"
@@ -371,6 +388,7 @@ func TestC14(t *testing.T) {
 			p.b = p.a.clone() // Diff(a, a)
 			p.edits = append(p.edits, "b:=a")
 		}
+		dbg = p.a.String() + " => " + p.b.String()
 		ds := mdtest.Mock()
 		na := build(t, ctx, ds, p.a)
 		nb := build(t, ctx, ds, p.b)
@@ -384,8 +402,11 @@ func TestC14(t *testing.T) {
 			t.Fatal(err)
 		}
 		r := newRender()
-		ta := r.tree(t, ctx, ds, na.Cid())
-		tb := r.tree(t, ctx, ds, nb.Cid())
+		ta, oka := r.tree(t, ctx, ds, na.Cid())
+		tb, okb := r.tree(t, ctx, ds, nb.Cid())
+		if !oka || !okb {
+			t.Fatalf("input trees incomplete: %s", dbg)
+		}
 		changes, err := dagutils.Diff(ctx, ds, a, b)
 		if err != nil {
 			t.Fatalf("Diff: %v", err)
@@ -408,7 +429,11 @@ func TestC14(t *testing.T) {
 		resKind := "error"
 		out, err := dagutils.ApplyChange(ctx, ds, fresh.(*merkledag.ProtoNode), changes)
 		if err == nil {
-			res = "(Some " + r.tree(t, ctx, ds, out.Cid()) + ")"
+			rt, ok := r.tree(t, ctx, ds, out.Cid())
+			if !ok {
+				st.Count("result-dag-incomplete-in-dagservice")
+			}
+			res = "(Some (" + vh.Z(int64(r.cid(out.Cid()))) + ", " + vh.Opt(ok, rt) + "))"
 			if out.Cid() == nb.Cid() {
 				resKind = "equal-b"
 			} else {
